@@ -453,7 +453,8 @@ pub fn dec_ctx<'s>(info: &'s SchemeInfo, s: &Sexp) -> Option<ExecutionContext<'s
                     }
                     sm.sets.insert(name, vs);
                 }
-                entries.push(serde_json::json!({"type": ty_json(*ty), "data": serde_json::to_value(&sm).ok()?}));
+                // "type" must precede "data": build the text by hand (serde_json::Value sorts keys)
+                entries.push(format!("{{\"type\":{},\"data\":{}}}", ty_json(*ty), serde_json::to_string(&sm).ok()?));
             }
             _ => return None,
         }
@@ -461,10 +462,10 @@ pub fn dec_ctx<'s>(info: &'s SchemeInfo, s: &Sexp) -> Option<ExecutionContext<'s
     if !entries.is_empty() {
         // matcher state can only be installed through deserialization
         use serde::de::DeserializeSeed;
-        let doc = serde_json::json!({ "$lists": entries }).to_string();
+        let doc = format!("{{\"$lists\":[{}]}}", entries.join(","));
         let doc: &'static str = Box::leak(doc.into_boxed_str());
         let mut de = serde_json::Deserializer::from_str(doc);
-        (&mut ctx).deserialize(&mut de).ok()?;
+        if let Err(e) = (&mut ctx).deserialize(&mut de) { eprintln!("ctx lists deserialize failed: {} in {}", e, doc); return None; }
     }
     Some(ctx)
 }
@@ -670,4 +671,22 @@ pub fn run_exec_value(args: &[Sexp]) -> Option<Sexp> {
         });
     }
     Some(Sexp::tagged("ok", out))
+}
+
+/// (typecheck scheme #text ast) -> (accept <ast>) | (reject)
+pub fn run_typecheck(args: &[Sexp], value: bool) -> Option<Sexp> {
+    let [sch, text, _ast] = args else { return None };
+    let info = dec_scheme(sch)?;
+    let text = String::from_utf8(text.as_bytes()?.to_vec()).ok()?;
+    if value {
+        match info.scheme.parse_value(&text) {
+            Ok(a) => Some(Sexp::tagged("accept", vec![enc_iexpr(&info, a.expression(), "field")])),
+            Err(_) => Some(Sexp::tagged("reject", vec![])),
+        }
+    } else {
+        match info.scheme.parse(&text) {
+            Ok(a) => Some(Sexp::tagged("accept", vec![enc_lexpr(&info, a.expression())])),
+            Err(_) => Some(Sexp::tagged("reject", vec![])),
+        }
+    }
 }
